@@ -319,7 +319,9 @@ fn insert_nonbridge(items: &mut Vec<Item>, rng: &mut Rng, names: &[String], dept
         let sident = syn::Ident::new(&shadow, proc_macro2::Span::call_site());
         let sident_path: syn::Type = parse_quote! { u8 };
         let uname = syn::Ident::new(&format!("VerifUse{}", c), proc_macro2::Span::call_site());
-        let item: Item = match rng.below(10) {
+        let item: Item = match rng.below(11) {
+            // a module carrying some *other* crate's `bridge` attribute: still not a Diplomat bridge module
+            10 => parse_quote! { #[doc = "verif_nonbridge"] #[cxx::bridge] pub mod #mname { pub struct VerifSample { pub x: u32 } pub enum VerifChannel { A, B } } },
             6 => parse_quote! { #[doc = "verif_nonbridge"] pub use core::fmt::Debug as #uname; },
             // a nested non-bridge module holding a unit struct called `Config` (the name the crates use for
             // their #[diplomat::config] carrier) and items with look-alike attributes
